@@ -238,6 +238,20 @@ class LocationAction(object):
             return True
         return False
 
+    def continue_from(self, other: 'LocationAction') -> 'LocationAction':
+        """
+        Continue the fire count and the fire period of another action.
+
+        Every response of the service creates new actions, also for the tracepoints it repeats unchanged: their limits
+        go on, they are not installed anew.
+
+        :param other: the action, of the previous config, this action replaces
+        :return: self
+        """
+        self.__stats = other.__stats
+        self.__lock = other.__lock
+        return self
+
     def with_tracepoint(self, tracepoint: TracePointConfig) -> 'LocationAction':
         """
         Attach the tracepoint this action was built from.
